@@ -1,1 +1,375 @@
-/- C07 — property theorems (to be written) -/
+/-
+  C07 — every traversal mode enumerates exactly the slice of content it names.
+  Property theorems only; helper lemmas live in FtProofs/Lemmas/Traverse.lean
+  (namespace `Ft.C07`, model in FtModel/Traverse.lean).
+-/
+import FtProofs.Lemmas.Traverse
+import FtProofs.C12
+set_option linter.unusedSectionVars false
+set_option linter.unusedSimpArgs false
+set_option linter.unusedVariables false
+namespace Ft
+open StrictTotal Ft.C07
+
+/-! ### occupancy, range and active-range iteration (any strictly ordered coordinate type) -/
+section range
+variable {κ : Type} [LT κ] [DecidableRel (α := κ) (· < ·)] [DecidableEq κ] [StrictTotal κ]
+variable {π : Type}
+
+/-- **`iterRange(start, end)`** on a sorted fiber yields precisely the non-empty elements with
+    `start <= coord < end` (either bound may be `None`), in ascending order, each once. -/
+theorem iterRange_spec (emp : π → Bool) (s e : Option κ) (f : Fib κ π) (hs : Sorted f) :
+    strip (iterRange emp s e none f) = rangeSpec emp s e f := by
+  rw [iterRange_strip, rangeLoop_eq_filter emp s e f hs]
+
+/-- … and what it yields are the fiber's own payloads: a yield tagged with position `i` is
+    the element stored at `i` (this is also the position `setSavedPos` records). -/
+theorem iterRange_yields_own_payloads (emp : π → Bool) (s e : Option κ) (sp : Option Nat) (f : Fib κ π)
+    (c : κ) (i : Nat) (p : π) (h : (c, (i, p)) ∈ iterRange emp s e sp f) : f[i]? = some (c, p) :=
+  mem_iterRange h
+
+/-- **a valid saved-position shortcut never changes what is yielded**: if no element before
+    `start_pos` belongs to the slice, the traversal from `start_pos` yields the same elements
+    (same payload objects, same positions). -/
+theorem iterRange_startpos (emp : π → Bool) (s e : Option κ) (sp : Nat) (f : Fib κ π) (hs : Sorted f)
+    (hv : validStart emp s e sp f = true) :
+    iterRange emp s e (some sp) f = iterRange emp s e none f :=
+  iterRange_startpos_eq emp s e sp f hs hv
+
+/-- the positions a traversal saves are valid shortcuts for every later slice that begins at
+    or after the coordinate yielded there (how `getSavedPos()` is meant to be used). -/
+theorem iterRange_saved_valid (emp : π → Bool) (s e : Option κ) (sp : Option Nat) (f : Fib κ π) (hs : Sorted f)
+    (c : κ) (i : Nat) (p : π) (h : (c, (i, p)) ∈ iterRange emp s e sp f)
+    (s' : κ) (e' : Option κ) (hle : ¬ s' < c) : validStart emp (some s') e' i f = true :=
+  saved_is_valid hs h s' e' hle
+
+/-- **`iterOccupancy()`** (= `iterRange(None, None)`): the non-empty elements in storage order;
+    no ordering assumption is needed because nothing is clipped. -/
+theorem iterOccupancy_spec (emp : π → Bool) (f : Fib κ π) :
+    strip (iterRange emp none none none f) = f.filter (fun x => !emp x.2) := by
+  rw [iterRange_strip, rangeLoop_none]
+
+end range
+
+/-- on trees: default iteration of a compressed rank presents `present` (the notion C04, C05
+    and C12 are stated with). -/
+theorem iterOccupancy_eq_present {ν : Type} [DecidableEq ν] (dflt : ν) (d : Nat) (f : Tree Int ν (d + 1)) :
+    strip (iterRange (isEmpty dflt d) none none none (show List (Int × Tree Int ν d) from f)) = present dflt d f :=
+  iterOccupancy_spec (isEmpty dflt d) _
+
+/-! ### shape iteration -/
+section shape
+variable {π : Type}
+
+/-- **`iterRangeShape(start, end, step)`** (and `iterShape` / `iterActiveShape`, which call it with
+    `(0, shape)` / the active range): every coordinate of the range, in order, with the stored
+    payload (and its position) or the default standing in for an absent one. -/
+theorem iterRangeShape_spec (mk : π) (f : Fib Int π) (hs : Sorted f) (s e : Int) (k : Nat) :
+    shapeIter mk f (pyRange s e k) = shapeSpec mk f (pyRange s e k) :=
+  shapeIter_eq_spec mk hs _
+
+/-- what "the stored payload or the default" means: the payload component is `lookup` or the
+    default; a position component `some i` points at that very element, `none` means absent. -/
+theorem shapeSpec_row (mk : π) (f : Fib Int π) (c : Int) :
+    (lookupPos mk f c).2 = (lookup f c).getD mk ∧
+    (∀ i, (lookupPos mk f c).1 = some i → f[i]? = some (c, (lookupPos mk f c).2)) ∧
+    ((lookupPos mk f c).1 = none → lookup f c = none) :=
+  ⟨lookupPos_snd mk f c, fun _ h => lookupPos_fst_some h, lookupPos_fst_none⟩
+
+/-- the coordinates of the range: `start, start+step, …` below `end`, strictly ascending. -/
+theorem pyRange_spec (s e : Int) (k : Nat) :
+    (∀ c, c ∈ pyRange s e k ↔ 0 < k ∧ c < e ∧ ∃ n : Nat, c = s + n * k) ∧
+    (pyRange s e k).Pairwise (· < ·) :=
+  ⟨mem_pyRange s e k, pyRange_ascending s e k⟩
+
+/-- the wrappers' ranges: `iterShape*` visits exactly `0 <= c < shape`, `iterActiveShape*`
+    exactly the active range (declared, or `(0, shape)` with an unknown shape estimated from the
+    last coordinate). -/
+theorem wrapper_ranges (cfg : Cfg) (f : Fib Int π) (c : Int) :
+    (c ∈ wrapCoords .shape cfg f ↔ 0 ≤ c ∧ c < getShape cfg f) ∧
+    (c ∈ wrapCoords .active cfg f ↔ (getActive cfg f).1 ≤ c ∧ c < (getActive cfg f).2) :=
+  ⟨mem_pyRange_one _ _ c, mem_pyRange_one _ _ c⟩
+
+/-- **reference variants insert exactly the visited absent coordinates**: after
+    `iterRangeShapeRef` over the coordinates `cs` the fiber is sorted, holds every original
+    element unchanged, holds the default at every visited coordinate that was absent, and nothing
+    else; the yields are those of the plain traversal. -/
+theorem iterRangeShapeRef_inserts_exactly (mk : π) (f : Fib Int π) (hs : Sorted f) (cs : List Int) :
+    Sorted (shapeRefLoop mk f cs).1 ∧
+    (∀ c, lookup (shapeRefLoop mk f cs).1 c = refExpect mk f cs c) ∧
+    (shapeRefLoop mk f cs).2 = cs.map (fun c => (c, (lookup f c).getD mk)) :=
+  shapeRefLoop_spec mk cs f hs
+
+/-- the executable form of that statement accepts the model's result … -/
+theorem iterRangeShapeRef_specB_sound [DecidableEq π] (mk : π) (f : Fib Int π) (hs : Sorted f) (cs : List Int) :
+    refSpecB mk f cs (shapeRefLoop mk f cs).1 = true := by
+  obtain ⟨h1, h2, _⟩ := shapeRefLoop_spec mk cs f hs
+  unfold refSpecB
+  rw [Bool.and_eq_true, List.all_eq_true]
+  exact ⟨(sortedB_iff _).2 h1, fun c _ => by simpa using h2 c⟩
+
+/-- … and nothing else (so checking it on the implementation's fiber is the same test as
+    comparing with the model). -/
+theorem iterRangeShapeRef_specB_complete [DecidableEq π] (mk : π) (f : Fib Int π) (hs : Sorted f) (cs : List Int)
+    (out : Fib Int π) (h : refSpecB mk f cs out = true) : out = (shapeRefLoop mk f cs).1 := by
+  obtain ⟨h1, h2, _⟩ := shapeRefLoop_spec mk cs f hs
+  unfold refSpecB at h
+  rw [Bool.and_eq_true, List.all_eq_true] at h
+  obtain ⟨hso, hall⟩ := h
+  have hso := (sortedB_iff _).1 hso
+  apply sorted_eq_of_lookup hso h1
+  intro c
+  rw [h2 c]
+  by_cases hk : c ∈ out.map (·.1) ++ f.map (·.1) ++ cs
+  · simpa using hall c hk
+  · simp only [List.mem_append, List.mem_map, not_or, not_exists, not_and] at hk
+    have e1 : lookup out c = none := lookup_eq_none_of_ne (fun x hx => hk.1.1 x hx)
+    have e2 : lookup f c = none := lookup_eq_none_of_ne (fun x hx => hk.1.2 x hx)
+    simp [refExpect, e1, e2, hk.2]
+
+/-- **repeatable**: a second reference traversal of the same range inserts nothing more and
+    yields the same (coordinate, payload) list. -/
+theorem iterRangeShapeRef_reiterable (mk : π) (f : Fib Int π) (hs : Sorted f) (cs : List Int) :
+    shapeRefLoop mk (shapeRefLoop mk f cs).1 cs = shapeRefLoop mk f cs := by
+  obtain ⟨h1, h2, h3⟩ := shapeRefLoop_spec mk cs f hs
+  have hall : ∀ c ∈ cs, lookup (shapeRefLoop mk f cs).1 c ≠ none := by
+    intro c hc
+    rw [h2 c]; unfold refExpect
+    cases lookup f c <;> simp [hc]
+  rw [shapeRefLoop_present mk cs _ h1 hall]
+  apply Prod.ext
+  · rfl
+  · show cs.map _ = (shapeRefLoop mk f cs).2
+    rw [h3]
+    apply List.map_congr_left
+    intro c hc
+    rw [h2 c]; unfold refExpect
+    cases lookup f c <;> simp [hc]
+
+/-! ### dense co-iteration -/
+
+/-- **`coiterRangeShape`** (and `coiterShape` / `coiterActiveShape`): every coordinate of the
+    range with the tuple of the fibers' stored-or-default payloads. -/
+theorem coiterRangeShape_spec (mk : π) (fs : List (Fib Int π)) (hs : ∀ f ∈ fs, Sorted f) (s e : Int) (k : Nat) :
+    coShape mk fs (pyRange s e k) = coShapeSpec mk fs (pyRange s e k) :=
+  coShape_eq_spec mk fs hs _
+
+/-- **`coiterRangeShapeRef`**: each fiber ends up exactly as after its own single-fiber
+    reference traversal (hence: original plus exactly the visited absent coordinates), and the
+    yields are the tuples of stored-or-default payloads. -/
+theorem coiterRangeShapeRef_spec (mk : π) (fs : List (Fib Int π)) (hs : ∀ f ∈ fs, Sorted f) (cs : List Int) :
+    (coShapeRefLoop mk fs cs).1 = fs.map (fun f => (shapeRefLoop mk f cs).1) ∧
+    (coShapeRefLoop mk fs cs).2 = cs.map (fun c => (c, fs.map (fun f => (lookup f c).getD mk))) :=
+  coShapeRefLoop_spec mk cs fs hs
+
+/-- **lazily produced fibers can be iterated repeatedly**: the lazy fiber returned by
+    `coiterRangeShapeRef` mutates its operands on the first traversal; a second traversal
+    (a fresh iterator instance on the mutated operands) yields the identical list and changes
+    nothing further. -/
+theorem coiterRangeShapeRef_reiterable (mk : π) (fs : List (Fib Int π)) (hs : ∀ f ∈ fs, Sorted f) (cs : List Int) :
+    coShapeRefLoop mk (coShapeRefLoop mk fs cs).1 cs = coShapeRefLoop mk fs cs := by
+  obtain ⟨h1, h2⟩ := coShapeRefLoop_spec mk cs fs hs
+  have hs2 : ∀ g ∈ (coShapeRefLoop mk fs cs).1, Sorted g := by
+    rw [h1]; intro g hg
+    obtain ⟨f, hf, rfl⟩ := List.mem_map.1 hg
+    exact (shapeRefLoop_spec mk cs f (hs f hf)).1
+  obtain ⟨k1, k2⟩ := coShapeRefLoop_spec mk cs _ hs2
+  apply Prod.ext
+  · rw [k1, h1, List.map_map]
+    apply List.map_congr_left
+    intro f hf
+    show (shapeRefLoop mk (shapeRefLoop mk f cs).1 cs).1 = _
+    rw [iterRangeShapeRef_reiterable mk f (hs f hf)]
+  · rw [k2, h2, h1]
+    apply List.map_congr_left
+    intro c hc
+    congr 1
+    rw [List.map_map]
+    apply List.map_congr_left
+    intro f hf
+    show (lookup (shapeRefLoop mk f cs).1 c).getD mk = _
+    rw [(shapeRefLoop_spec mk cs f (hs f hf)).2.1 c]
+    unfold refExpect
+    cases lookup f c <;> simp [hc]
+
+end shape
+
+/-! ### `__iter__`: default iteration follows the rank's format -/
+section dispatch
+variable {π : Type}
+
+/-- **`__iter__`** on a compressed rank ("C") is occupancy iteration — the non-empty elements,
+    each with its storage position; on an uncompressed rank ("U") it is dense iteration of the
+    active range — every coordinate with the stored payload or the default.  A valid shortcut
+    (only empty elements before it) changes nothing; "U" ignores the shortcut altogether. -/
+theorem iter_dispatch (emp : π → Bool) (mk : π) (cfg : Cfg) (sp : Option Nat) (f : Fib Int π) (hs : Sorted f)
+    (hv : ∀ i, sp = some i → cfg.fmt = .U ∨ validStart emp none none i f = true) :
+    iterDefault emp mk cfg sp f = iterDefaultSpec emp mk cfg f ∧
+    iterDefaultSpec emp mk cfg f =
+      (match cfg.fmt with
+       | .C => stored ((withPos f).filter (fun x => !emp x.2.2))
+       | .U => shapeSpec mk f (pyRange (getActive cfg f).1 (getActive cfg f).2 1)) := by
+  refine ⟨?_, by unfold iterDefaultSpec; cases cfg.fmt <;> rfl⟩
+  cases hf : cfg.fmt with
+  | U => exact iterDefault_U emp mk cfg hf hs sp
+  | C =>
+    cases sp with
+    | none => exact iterDefault_C emp mk cfg hf f
+    | some i =>
+      rcases hv i rfl with h | h
+      · rw [hf] at h; cases h
+      · exact iterDefault_C_sp emp mk cfg hf hs i h
+
+/-- the two modes agree on what is there: the non-empty part of the dense traversal of `[a, b)`
+    is the occupancy traversal clipped to `[a, b)` (same payload objects, same positions). -/
+theorem shape_nonempty_is_range (emp : π → Bool) (mk : π) (hmk : emp mk = true) (f : Fib Int π) (hs : Sorted f)
+    (a b : Int) :
+    (shapeSpec mk f (pyRange a b 1)).filter (fun x => !emp x.2.2) =
+      stored (rangeSpec (fun ip : Nat × π => emp ip.2) (some a) (some b) (withPos f)) := by
+  rw [shape_nonempty_eq_range emp mk hmk hs]
+  congr 1
+  apply filter_congr'
+  intro x _
+  simp only [inSlice, geStart, geEnd, Bool.not_not]
+  by_cases h1 : x.1 < a
+  · have : ¬ a ≤ x.1 := by omega
+    simp [h1, this]
+  · have : a ≤ x.1 := by omega
+    simp [h1, this]
+
+end dispatch
+
+/-! ### lazy fibers: projection, pruning, materialisation -/
+section lazy
+variable {π : Type}
+
+/-- **what a projection has to deliver**: `r` is an element of `projectSpec` iff it is one of the
+    fiber's stored non-empty elements (`f[i] = (c, p)`, the same payload object) under the
+    transformed coordinate `k*c + m`, the latter lying in the interval (and in the range the
+    result is iterated with); and the list is strictly ascending, for increasing (`k > 0`) and
+    decreasing (`k < 0`) transforms alike. -/
+theorem projectSpec_meaning (emp : π → Bool) (k m : Int) (hk : k ≠ 0) (iv : Option (Int × Int)) (os oe : Option Int)
+    (f : Fib Int π) (hs : Sorted f) :
+    Sorted (projectSpec emp k m iv os oe f) ∧
+    ∀ r, r ∈ projectSpec emp k m iv os oe f ↔
+      ∃ c i p, f[i]? = some (c, p) ∧ emp p = false ∧ inIv iv (k * c + m) = true ∧
+        geStart os (k * c + m) = true ∧ geEnd oe (k * c + m) = false ∧ r = (k * c + m, (some i, p)) :=
+  ⟨projectSpec_sorted emp hk m iv os oe hs, mem_projectSpec emp k m iv os oe f⟩
+
+/-- **`project`** (affine `c ↦ k*c + m`, `k > 0` or `k < 0`, optional interval, optional shortcut;
+    the lazy result iterated by `__iter__` or `iterRange(os, oe)`) delivers `projectSpec`, for
+    every default value and also for fibers that store only empty elements.
+    PARTIAL — one class the code gets wrong is excluded by `h3` (open finding): a valid shortcut
+    that the assertion in `project` rejects because it compares a *source* coordinate with the
+    *target* interval.  Domain: a shortcut is only claimed for increasing transforms (the reversed
+    path asserts on any `start_pos`) and must be valid (`projValidStart`); an uncompressed rank
+    holds no content outside its active range. -/
+theorem project_spec_partial (emp : π → Bool) (mk : π) (hmk : emp mk = true) (cfg : Cfg) (k m : Int) (hk : k ≠ 0)
+    (iv : Option (Int × Int)) (sp : Option Nat) (os oe : Option Int) (f : Fib Int π) (hs : Sorted f)
+    (hU : cfg.fmt = .C ∨ withinActive emp cfg f = true)
+    (hsp : ∀ i, sp = some i → 0 < k ∧ projValidStart emp k m iv i f = true)
+    (h3 : projStartOk iv sp f = true) :
+    project emp mk cfg k m iv sp os oe f = .ok (projectSpec emp k m iv os oe f) := by
+  by_cases hneg : k < 0
+  · cases sp with
+    | some i => have := (hsp i rfl).1; omega
+    | none => exact project_rev emp mk cfg hneg m iv os oe hs
+  · have hpos : 0 < k := by omega
+    cases hf : cfg.fmt with
+    | U =>
+      have hin : withinActive emp cfg f = true := by
+        rcases hU with h | h
+        · rw [hf] at h; cases h
+        · exact h
+      exact project_fwd_U emp mk hmk cfg hf hpos m iv sp os oe hs h3 hin
+    | C =>
+      cases sp with
+      | none => exact project_fwd_C emp mk cfg hf hpos m iv os oe hs
+      | some i => exact project_fwd_C_sp emp mk cfg hf hpos m iv i os oe hs h3 (hsp i rfl).2
+
+/-- without a shortcut nothing is excluded: **`project` = `projectSpec`** for every sorted fiber
+    (any occupancy, explicit defaults, any default value), every increasing or decreasing affine
+    transform, every interval and every range the result is iterated with. -/
+theorem project_spec (emp : π → Bool) (mk : π) (hmk : emp mk = true) (cfg : Cfg) (k m : Int) (hk : k ≠ 0)
+    (iv : Option (Int × Int)) (os oe : Option Int) (f : Fib Int π) (hs : Sorted f)
+    (hU : cfg.fmt = .C ∨ withinActive emp cfg f = true) :
+    project emp mk cfg k m iv none os oe f = .ok (projectSpec emp k m iv os oe f) :=
+  project_spec_partial emp mk hmk cfg k m hk iv none os oe f hs hU (fun i h => by cases h) rfl
+
+/-- **`prune`**: the lazy result delivers the non-empty elements of the default traversal that
+    `trans_fn(i, c, p)` accepts (`i` = rank in that traversal), clipped to the range the result
+    is iterated with; a legal valid shortcut changes nothing. (A `None` answer is treated like
+    `False` — the traversal does not stop, contrary to the docstring.) -/
+theorem prune_spec (emp : π → Bool) (mk : π) (cfg : Cfg) (pred : Nat → Int → π → Bool) (sp : Option Nat)
+    (os oe : Option Int) (f : Fib Int π) (hs : Sorted f) (hl : startLegal sp f = true)
+    (hv : ∀ i, sp = some i → cfg.fmt = .U ∨ validStart emp none none i f = true) :
+    prune emp mk cfg pred sp os oe f = .ok (pruneSpec emp mk cfg pred os oe f) :=
+  prune_eq_spec emp mk cfg pred sp os oe hs hl (iter_dispatch emp mk cfg sp f hs hv).1
+
+/-- pruning keeps order and takes nothing but what the default traversal presents -/
+theorem pruneSpec_sublist (emp : π → Bool) (mk : π) (cfg : Cfg) (pred : Nat → Int → π → Bool) (os oe : Option Int)
+    (f : Fib Int π) : (pruneSpec emp mk cfg pred os oe f).Sublist (iterDefaultSpec emp mk cfg f) := by
+  unfold pruneSpec
+  have h1 : ((iterDefaultSpec emp mk cfg f).zipIdx.filter
+      (fun x => !emp x.1.2.2 && pred x.2 x.1.1 x.1.2.2 && geStart os x.1.1 && !geEnd oe x.1.1)).Sublist
+      (iterDefaultSpec emp mk cfg f).zipIdx := List.filter_sublist
+  have h2 := h1.map (·.1)
+  rwa [List.zipIdx_map_fst] at h2
+
+end lazy
+
+/-- **lazily produced fibers materialise to equal eager fibers**: `Fiber.fromLazy` of a lazy
+    fiber presenting the ascending list `ys` is the recursive non-empty copy of the eager fiber
+    `ys`, hence `==` to it (C12's equality). -/
+theorem fromLazy_eq {ν : Type} [DecidableEq ν] (dflt : ν) (d : Nat) (ys : Tree Int ν (d + 1)) (hw : WF (d + 1) ys) :
+    fromLazy dflt d (show List (Int × Tree Int ν d) from ys) = nonEmpty dflt (d + 1) ys ∧
+    fiberEq dflt dflt (d + 1) (fromLazy dflt d (show List (Int × Tree Int ν d) from ys)) ys = true := by
+  have h := fromLazy_eq_nonEmpty dflt d (show List (Int × Tree Int ν d) from ys) hw.sorted
+  refine ⟨h, ?_⟩
+  rw [h]
+  exact nonEmpty_eq dflt d ys hw
+
+/-! ### non-vacuity -/
+
+example : Sorted ([(0, (0 : Int)), (2, 5), (3, 0), (6, 7)] : Fib Int Int) := (sortedB_iff _).1 (by decide)
+example : validStart (fun v : Int => v == 0) (some 3) (some 7) 2 [(0, 0), (2, 5), (3, 0), (6, 7)] = true := by decide
+example : strip (iterRange (fun v : Int => v == 0) (some (1 : Int)) (some 6) none [(0, 4), (2, 5), (3, 0), (6, 7)])
+    = [(2, 5)] := by decide
+#guard (shapeRefLoop (0 : Int) [(1, 5)] (pyRange 0 3 1)) == ([(0, 0), (1, 5), (2, 0)], [(0, 0), (1, 5), (2, 0)])
+#guard pyRange (-1) 6 3 == [-1, 2, 5]
+
+/-! ### the excluded class is real: the model (= the code) does not meet `projectSpec` there -/
+
+private def c07_emp (dflt : Int) : Int → Bool := fun v => v == dflt
+
+/-- `h3`: `Fiber([0,2],[5,1]).project(lambda c: c-2, interval=(-1,1), start_pos=1)` is rejected although valid -/
+example : project (c07_emp 0) 0 {} 1 (-2) (some (-1, 1)) (some 1) none none [(0, 5), (2, 1)]
+    = .error .assertion := by rfl
+example : projValidStart (c07_emp 0) 1 (-2) (some (-1, 1)) 1 [(0, (5 : Int)), (2, 1)] = true := by decide
+example : projectSpec (c07_emp 0) 1 (-2) (some (-1, 1)) none none [(0, (5 : Int)), (2, 1)] = [(0, (some 1, 1))] := by decide
+/-- the two classes fixed in /repo (df4ea73, 2791d6a) now meet the specification -/
+example : project (c07_emp 7) 7 {} (-1) (-2) none none none none [(2, 0)] = .ok [(-4, (some 0, 0))] := by rfl
+example : project (c07_emp 0) 0 {} 1 (-2) none none none none [(2, 0)] = .ok [] := by rfl
+/-- the hypotheses of `project_spec_partial` are satisfiable by non-trivial values (decreasing
+    transform with interval; increasing transform with a positive valid shortcut) -/
+example : project (c07_emp 0) 0 {} (-2) 10 (some (1, 9)) none none none [(0, 0), (1, 5), (3, 6), (5, 7)]
+    = .ok [(4, (some 2, 6)), (8, (some 1, 5))] := by rfl
+example : projValidStart (c07_emp 0) 1 10 (some (12, 20)) 2 [(0, (0 : Int)), (1, 5), (3, 6), (5, 7)] = true ∧
+    projStartOk (some (12, 20)) (some 2) [(0, (0 : Int)), (1, 5), (3, 6), (5, 7)] = true := by decide
+
+/-- prune: a legal, valid shortcut over an explicit default; an uncompressed rank within its active range -/
+example : startLegal (some 1) [(0, (0 : Int)), (2, 5), (4, 6)] = true ∧
+    validStart (c07_emp 0) none none 1 [(0, (0 : Int)), (2, 5), (4, 6)] = true := by decide
+example : withinActive (c07_emp 0) { fmt := .U, shape := some 4 } [(0, (0 : Int)), (1, 5), (3, 6)] = true := by decide
+#guard (match prune (c07_emp 0) 0 { fmt := .U, shape := some 4 } (fun i _ _ => i % 2 == 1) none none none
+          [(0, 0), (1, 5), (3, 6)] with | .ok l => l == [(1, (some 1, 5)), (3, (some 2, 6))] | _ => false)
+#guard (match project (c07_emp 0) 0 { fmt := .U, shape := some 4 } 2 1 (some (2, 8)) none none none
+          [(0, 0), (1, 5), (3, 6)] with | .ok l => l == [(3, (some 1, 5)), (7, (some 2, 6))] | _ => false)
+/-- fromLazy: a well-formed depth-2 list of yields with an empty sub-fiber and an explicit default -/
+private def c07_ys : Tree Int Int 2 := [(1, [(0, (0 : Int)), (2, (5 : Int))]), (4, [])]
+private def c07_mat : Tree Int Int 2 := [(1, [(2, (5 : Int))])]
+example : WF 2 c07_ys := (wfB_iff 2 c07_ys).1 (by decide)
+#guard fiberEq 0 0 2 (fromLazy (0 : Int) 1 c07_ys) c07_mat && fiberEq 0 0 2 (fromLazy (0 : Int) 1 c07_ys) c07_ys
+#guard canonicalB 0 2 (fromLazy (0 : Int) 1 c07_ys)
+
+end Ft
